@@ -147,13 +147,16 @@ def run():
         reqs.append({"id": str(i), "src": src})
         exps.append(expect)
     out = run_cases(reqs, label="C05")
-    queries = nontrivial = 0
+    queries = nontrivial = discarded = 0
     for i, c in enumerate(cases):
         o = out[str(i)]
         if pvlib.is_host_crash(o["end"]):
             ck.reject("C05:host-crash", o["end"], {"src": reqs[i]["src"], "observed": o["end"]})
             continue
         ev = o["events"]
+        if o["end"].startswith(("discarded:", "fuel:")):      # the worker gave up on the program (deadline under load, fuel): nothing was observed, nothing is judged
+            discarded += 1
+            continue
         if len(ev) != len(exps[i]) or not o["end"].startswith("val:"):
             ck.reject("C05:program-aborted", f"forest program ended with {o['end']} after {len(ev)} of {len(exps[i])} queries",
                       {"src": reqs[i]["src"], "observed": o["end"], "events": ev[-3:]})
@@ -172,6 +175,9 @@ def run():
                           {"src": reqs[i]["src"], "query": what, "observed": got, "expected": want, "forest": c["objs"]})
         if any(r["r"] == "missing" or (r["r"] == "prop" and r["owner"] != oi + 1) for oi, rs in enumerate(c["res"]) for r in rs):
             nontrivial += 1
+    ck.cov["discarded"] = discarded
+    if discarded > max(20, len(cases) // 20):
+        raise pvlib.Broken(f"{discarded} of {len(cases)} forest programs were not evaluated to the end (deadline / fuel): the machine is too loaded to judge")
     ck.cov["forests_with_unrelated_literal"] = sum(1 for c in cases if c.get("noise"))
     ck.sample({"forest": cases[-1]["objs"], "program_head": reqs[-1]["src"].splitlines()[:4], "first_events": out[str(len(cases) - 1)]["events"][:4]})
     ck.cov["evaluations"] = queries
